@@ -111,7 +111,9 @@ def gen_cases(tier, seed):
             vs = _variants([ku, kv, kw], [pu, pv, pw], tier, None)
             for d in (vs[:3] + vs[4:6] if q else vs):
                 cases.append(dict(shape=d))
-    return cases
+    # two objects: a rational shape and the copy a transform returns, views of the source read before those of the copy
+    extra = [dict(c, as_copy=True) for c in cases if c['shape']['rational'] and c['shape']['dim'] == 3][::(7 if q else 3)]
+    return cases + extra
 
 
 def case_weight(c):
@@ -223,6 +225,11 @@ def run_case(case, ctx):
     seed = ctx.seed
     pd, dim = desc['pdim'], desc['dim']
     obj = S.build(desc, seed)
+    if case.get('as_copy'):
+        # the judged object is the copy returned by a non in-place transform; the source's views are read first
+        src = obj
+        obj = operations.translate(src, [2.0, -1.0, 0.5][:dim])
+        _ = (src.ctrlpts, src.bbox, src.weights, src.evalpts)
     model = R.def_from_obj(obj)
     degs = model['degrees']
     U_pts = _unweighted(model)
@@ -232,7 +239,7 @@ def run_case(case, ctx):
                   for U, p in zip(model['kvs'], degs))
     feats = dict(pdim=pd, rational=desc['rational'], degrees=list(degs), degree=max(degs), dim=dim,
                  net=desc['net'].split(':')[0], weights=desc.get('weights', 'ones'), unclamped=bool(case.get('unclamped')),
-                 clamped=clamped)
+                 clamped=clamped, as_copy=bool(case.get('as_copy')))
     ctx.state(dict(d=desc, s=seed if 'seeded' in (desc['net'], desc.get('weights')) else 0),
               nontrivial=A.is_nontrivial(desc))
     parts = case.get('parts') or PARTS
